@@ -95,7 +95,7 @@ type node interface {
 	setModTime(mtime time.Time, u avfs.UserReader) bool
 
 	// setOwner sets the owner of the node.
-	setOwner(uid, gid int)
+	setOwner(uid, gid int, u avfs.UserReader)
 
 	// size returns the size of the node.
 	size() int64
